@@ -515,7 +515,7 @@ def font_rewrites(data, want=None, with_subr=True, orig=None):
     run("recompile", recompile)
     def both_to_cff(src):
         run("cff2-to-cff", to_cff(src, False))
-        if isinstance(rew.get("cff2-to-cff"), Exception):
+        if isinstance(rew.get("cff2-to-cff"), Exception) and "Variable CFF2 font" not in str(rew["cff2-to-cff"]):
             # controlled experiment: the same conversion with every Private DICT read while the font is
             # still CFF2.  It keeps the rest of the conversion under test, and a failure that goes away
             # with it is the lazy-Private-read defect (root_cause), any other failure keeps its own key
@@ -648,14 +648,20 @@ def font_traces(data, label, rng, want=None, with_subr=True, func_sample=None, p
 
 # --------------------------------------------------------------------------------------
 # generators: grammar-based random programs (python, seeded) and subroutine extraction
+# the ends of the operand encodings of TN5177 section 3.2 (1 byte: -107..107, 2 bytes: +-108..+-1131, 3 bytes: shortint)
+ENC_BOUNDS = (107, 108, 1131, 1132, -107, -108, -1131, -1132, 363, 364, -363, -364, 619, 620, 875, 876)
+
+
 def rand_val(rng, frac):
     r = rng.random()
     if r < 0.28:
         return 0
     if r < 0.75:
         v = rng.randint(-6, 6)
-    elif r < 0.95:
+    elif r < 0.93:
         v = rng.randint(-300, 300)
+    elif r < 0.96:
+        return rng.choice(ENC_BOUNDS)
     else:
         v = rng.randint(-1500, 1500)
     if frac and rng.random() < 0.35:
@@ -1058,8 +1064,8 @@ def judge_all(chk, traces, what):
                 extra = ""
                 if t.get("exc", {}).get(name):
                     extra = " exception=%s" % t["exc"][name]
-                if t["meta"].get("kind") in ("font", "font-func") and cl.endswith(":Raised") and not root_cause(t, cl):
-                    # a corpus font the real code cannot process is not a statement about drawing
+                if t["meta"].get("kind") == "font" and cl.endswith(":Raised") and not root_cause(t, cl):
+                    # a corpus font a whole-font rewriting cannot process is not a statement about drawing
                     chk.skip("corpus font: %s on %s%s" % (cl, t["meta"].get("font"), extra))
                     continue
                 key = root_cause(t, cl) or re.sub(r"max\d+", "max", cl)
@@ -1160,7 +1166,7 @@ def run(chk):
     # ---- (M) ------------------------------------------------------------------------
     cfg = "MC_T2Sem_thorough" if thorough else "MC_T2Sem"
     r = tlc_retry(chk, "MC_T2Sem", cfg=cfg, label=cfg, timeout=1500, env=JAVA_ENV, workers=TLC_WORKERS)
-    gens = r.prints.get("GEN", [])
+    gens = sorted(r.prints.get("GEN", []), key=lambda pl: pl[0])   # TLC prints in worker order: fix the order
     if len(gens) != r.distinct - 1:      # every state but the seed state denotes a program
         raise MachineryError("MC_T2Sem exported %d programs for %d states" % (len(gens), r.distinct))
     chk.log("%s: %d states, %d programs exported, %.1fs" % (cfg, r.distinct, len(gens), r.wall))
@@ -1195,6 +1201,12 @@ def run(chk):
     chk.notes["mc_programs_replayed"] = len(items)
     n_mc = len(items)
 
+    # development aid: C12_PHASES=func,built,corpus restricts the run to some phases (default: all; a restricted
+    # run says so in its evidence)
+    phases = set(os.environ.get("C12_PHASES", "func,built,corpus").split(","))
+    if phases != {"func", "built", "corpus"}:
+        chk.notes["phases_restricted_to"] = sorted(phases)
+        chk.assumptions.append("PARTIAL RUN: only phases %s" % sorted(phases))
     # ---- grammar-generated random programs ----------------------------------------------
     n_rand = 25000 if thorough else 2000
     n_cff2 = 8000 if thorough else 700
@@ -1213,6 +1225,8 @@ def run(chk):
                                                                "prog": enc_prog(p), "rg": rg, "vsi": 0}))
     chk.log("function-level: %d programs from TLC, %d from the grammar generator" % (n_mc, len(items) - n_mc))
     t0 = time.time()
+    if "func" not in phases:
+        items = []
     res = common.pmap(_work_func, items, chunksize=200)
     traces = []
     for x in res:
@@ -1250,8 +1264,12 @@ def run(chk):
         dw = rng.choice([0, 5, 500, 601, nw, nw + 5])
         # re-base widths so that (a) some glyphs sit exactly on defaultWidthX, (b) explicit ones spread
         pad = (1239, 1240, 1241)[i % 3] if (i % 10 == 5) else 0   # the subroutine bias changes at 1240
+        if i % 10 == 7 and sum(1 for g in gl if not g[1]) >= 5:
+            gl = [g for g in gl if not g[1]]    # monospaced: no glyph carries a width, every advance is defaultWidthX
         fonts.append((i, gl, dw, nw, pad))
     t0 = time.time()
+    if "built" not in phases:
+        fonts = []
     res = common.pmap(_work_built, fonts)
     traces = []
     for tr, sk, notes in res:
@@ -1280,6 +1298,8 @@ def run(chk):
         if (b"<CFF2>" in head or (thorough and b"<CFF>" in head)) and b"<ttFont" in head[:600] and b"<GlyphOrder>" in head:
             paths.append(pth)
     t0 = time.time()
+    if "corpus" not in phases:
+        paths = []
     loaded = common.pmap(_work_corpus_load, paths)
     distinct, nfonts = {}, 0
     for pth, (fonts_, why) in zip(paths, loaded):
